@@ -405,6 +405,14 @@ def check(pid, tier, seed, replay=None):
     json.dump(ev, open(os.path.join(ROOT, "evidence", pid + ".json"), "w"), indent=1)
     for l in violation_lines:
         log(l)
+    # disk: large case files of a green run are not kept
+    if not violation_lines:
+        for f in (casefile, os.path.join(BUILD, "cases", "%s-search-%d.tsv" % (pid, seed))):
+            try:
+                if os.path.exists(f) and os.path.getsize(f) > 200 * 1024 * 1024:
+                    os.remove(f)
+            except OSError:
+                pass
     if not violation_lines:
         log("OK property=%s tier=%s obligations=%d/%d cases=%d nontrivial=%d mismatches=%d wall=%.1fs" % (pid, tier, discharged, len(names), len(real), len(nontriv), len(mism), time.time() - t0))
     return 1 if violation_lines else 0
